@@ -51,12 +51,12 @@ type Op struct {
 }
 
 type Workload struct {
-	Name  string
-	Ops   []Op
-	Model bool // compared with the Lean model point by point (canonical schedule enforced)
-	Free  bool // no schedule enforcement: goroutines interleave freely (property predicate only)
+	Name      string
+	Ops       []Op
+	Model     bool // compared with the Lean model point by point (canonical schedule enforced)
+	Free      bool // no schedule enforcement: goroutines interleave freely (property predicate only)
 	SaveFirst bool // adversarial schedule: a block write waits until a snapshot that has begun is complete
-	Shape string
+	Shape     string
 }
 
 func blk(name, parent string, nout int, spend ...string) Op {
@@ -64,8 +64,8 @@ func blk(name, parent string, nout int, spend ...string) Op {
 }
 
 var (
-	idle  = Op{K: "idle"}
-	wait  = Op{K: "wait"}
+	idle    = Op{K: "idle"}
+	wait    = Op{K: "wait"}
 	closeOp = Op{K: "close"}
 )
 
@@ -188,7 +188,9 @@ func newKit(dir string) *chainkit.Kit {
 	return k
 }
 
-func anyone(v uint64) chainkit.OutSpec { return chainkit.OutSpec{Value: v, Script: chainkit.AnyoneScript} }
+func anyone(v uint64) chainkit.OutSpec {
+	return chainkit.OutSpec{Value: v, Script: chainkit.AnyoneScript}
+}
 
 func buildBase(root string) *Base {
 	b := &Base{Dir: root + "/base/", Coins: map[string]*chainkit.Coin{}}
@@ -351,33 +353,33 @@ func (r *Ref) isAncestorOrEqual(a, b string) bool {
 type Hit struct {
 	N      int    `json:"n"`
 	Name   string `json:"point"`
-	Idx    int    `json:"hit"`   // per-name hit count (1-based)
-	OpIdx  int    `json:"op"`    // workload op during which the point fired
-	NSub   int    `json:"nsub"`  // blocks submitted (started) so far
-	SnapOK string `json:"snap"`  // tip of the last COMPLETED snapshot at that instant
+	Idx    int    `json:"hit"`  // per-name hit count (1-based)
+	OpIdx  int    `json:"op"`   // workload op during which the point fired
+	NSub   int    `json:"nsub"` // blocks submitted (started) so far
+	SnapOK string `json:"snap"` // tip of the last COMPLETED snapshot at that instant
 }
 
 type Sched struct {
-	mu       sync.Mutex
-	cond     *sync.Cond
-	enforce  bool
-	dir      string
-	snaps    string
-	hits     []Hit
-	cnt      map[string]int
-	opIdx    int
-	nsub     int
-	saveAct  bool // between utxo.save:begin and utxo.save:finito
-	created  bool // the file goroutine of the current save has created its file
-	fileLive bool // between utxo.save.file:created and :renamed / :abort-removed
-	saveCh   int  // utxo.save:chunk hits of the current save
-	fileCh   int  // utxo.save.file:chunk hits of the current save
-	commits  int  // utxo.commit:before-commit hits
-	undoDone int  // utxo.commit:undo-renamed hits
-	snapTip  string
-	curTip   func() string
-	copyErr  error
-	only     int // >0: copy only this hit (replay)
+	mu        sync.Mutex
+	cond      *sync.Cond
+	enforce   bool
+	dir       string
+	snaps     string
+	hits      []Hit
+	cnt       map[string]int
+	opIdx     int
+	nsub      int
+	saveAct   bool // between utxo.save:begin and utxo.save:finito
+	created   bool // the file goroutine of the current save has created its file
+	fileLive  bool // between utxo.save.file:created and :renamed / :abort-removed
+	saveCh    int  // utxo.save:chunk hits of the current save
+	fileCh    int  // utxo.save.file:chunk hits of the current save
+	commits   int  // utxo.commit:before-commit hits
+	undoDone  int  // utxo.commit:undo-renamed hits
+	snapTip   string
+	curTip    func() string
+	copyErr   error
+	only      int // >0: copy only this hit (replay)
 	saveFirst bool
 }
 
